@@ -5,8 +5,10 @@ package main
 // flag resolution after a program point, nil-return search after a point.
 
 import (
+	"fmt"
 	"go/token"
 	"go/types"
+	"sort"
 	"strings"
 
 	"golang.org/x/tools/go/ssa"
@@ -43,6 +45,28 @@ func c08FindRoles(c *Ctx, rule string) *c08Roles {
 	if r.store == nil {
 		c.LostAnchor(rule, "~/content/oci.Store")
 		return nil
+	}
+	// the string field that holds the path of index.json, by what is assigned to it
+	for _, f := range c.P.FuncsOfPkg(c08Pkg) {
+		AllInstrs(f, func(in ssa.Instruction) {
+			st, ok := in.(*ssa.Store)
+			if !ok {
+				return
+			}
+			fa, ok := st.Addr.(*ssa.FieldAddr)
+			if !ok {
+				return
+			}
+			pt, ok := fa.X.Type().Underlying().(*types.Pointer)
+			if !ok || !types.Identical(pt.Elem(), r.store) {
+				return
+			}
+			for _, rt := range Roots(st.Val) {
+				if call, ok := rt.(*ssa.Call); ok && len(call.Call.Args) == 1 && (CalleeName(call) == "path/filepath.Join" || CalleeName(call) == "path.Join") && c10LastJoinElem(call.Call.Args[0]) == "index.json" {
+					c09RoleOverride["oci.Store.indexPath"] = r.store.Underlying().(*types.Struct).Field(fa.Field).Name()
+				}
+			}
+		})
 	}
 	for _, f := range []string{"AutoSaveIndex", "tagResolver", "index", "indexPath"} {
 		if !c09HasField(r.store, f) {
@@ -327,7 +351,8 @@ func c08BoolKnownAfter(M ssa.Instruction, v ssa.Value, use ssa.Instruction) (val
 	if reach(M.Block(), instrIndex(M)+1, use, newCut().Instr(phi)) {
 		return false, false
 	}
-	after := func(to ssa.Instruction) bool { return reach(M.Block(), instrIndex(M)+1, to, nil) }
+	// edges that can be taken after M before control first arrives at the use
+	after := func(to ssa.Instruction) bool { return reach(M.Block(), instrIndex(M)+1, to, newCut().Instr(use)) }
 	vals := map[bool]bool{}
 	for k, p := range phi.Block().Preds {
 		term := p.Instrs[len(p.Instrs)-1]
@@ -876,4 +901,164 @@ func c08IndexCriticalSections(p *Prog, r *c08Roles) []c08CritSec {
 		out = append(out, cs)
 	}
 	return out
+}
+
+// ---------- path search with nil facts ----------
+
+// c08PathExists: is there a path from instruction index idx of block b0 to
+// `target` (nil: to any Return whose error result is not known non-nil, or —
+// when headers is given — to one of those loop headers) that avoids the cut,
+// taking into account what earlier branches established about error values:
+// once `v != nil` (or `v == nil`) was decided, later tests of v — also through
+// phis that merely carry v (`if err == nil { err = g() }; if err != nil {…}`) —
+// follow the same answer.  nonNil seeds the facts.
+func c08PathExists(b0 *ssa.BasicBlock, idx int, target ssa.Instruction, toNilReturn bool, ct *cut, nonNil []ssa.Value) bool {
+	fn := b0.Parent()
+	errIdx := ErrResultIndex(fn.Signature)
+	type facts map[ssa.Value]bool // true: non-nil, false: nil
+	keyOf := func(b *ssa.BasicBlock, f facts) string {
+		var ks []string
+		for v, nn := range f {
+			ks = append(ks, v.Name()+ifelse(nn, "+", "-"))
+		}
+		sort.Strings(ks)
+		return fmt.Sprint(b.Index, ks)
+	}
+	seen := map[string]bool{}
+	budget := 20000
+	var walk func(b *ssa.BasicBlock, pred *ssa.BasicBlock, from int, f facts) bool
+	walk = func(b *ssa.BasicBlock, pred *ssa.BasicBlock, from int, f facts) bool {
+		budget--
+		if budget < 0 {
+			return true // give up: assume a path exists (the caller reports)
+		}
+		if from == 0 {
+			// phis carry facts
+			nf := facts{}
+			for v, nn := range f {
+				nf[v] = nn
+			}
+			if pred != nil {
+				for _, in := range b.Instrs {
+					phi, ok := in.(*ssa.Phi)
+					if !ok {
+						break
+					}
+					for k, p := range b.Preds {
+						if p == pred {
+							op := phi.Edges[k]
+							if nn, known := f[op]; known {
+								nf[phi] = nn
+							} else if c, isC := op.(*ssa.Const); isC && c.Value == nil {
+								nf[phi] = false
+							} else if ErrNilStatus(op, 0) == NonNil {
+								nf[phi] = true
+							} else {
+								delete(nf, phi)
+							}
+						}
+					}
+				}
+			}
+			f = nf
+			k := keyOf(b, f)
+			if seen[k] {
+				return false
+			}
+			seen[k] = true
+		}
+		for i := from; i < len(b.Instrs); i++ {
+			in := b.Instrs[i]
+			if target != nil && in == target {
+				return true
+			}
+			if ct != nil && ct.instrs[in] {
+				return false
+			}
+			if r, ok := in.(*ssa.Return); ok {
+				if !toNilReturn || errIdx < 0 {
+					return false
+				}
+				v := r.Results[errIdx]
+				if nn, known := f[v]; known && nn {
+					return false
+				}
+				if ErrNilStatus(v, 0) == NonNil {
+					return false
+				}
+				return true
+			}
+		}
+		var next []*ssa.BasicBlock
+		if ifi, ok := b.Instrs[len(b.Instrs)-1].(*ssa.If); ok {
+			cond, t, fe := ifEdges(ifi)
+			decided := false
+			if bo, isBo := cond.(*ssa.BinOp); isBo && (bo.Op == token.EQL || bo.Op == token.NEQ) {
+				var x ssa.Value
+				if isNilConst(bo.Y) {
+					x = bo.X
+				} else if isNilConst(bo.X) {
+					x = bo.Y
+				}
+				if x != nil {
+					nilE, nonE := t, fe
+					if bo.Op == token.NEQ {
+						nilE, nonE = fe, t
+					}
+					if nn, known := f[x]; known {
+						decided = true
+						e := nilE
+						if nn {
+							e = nonE
+						}
+						if ct == nil || !ct.edges[e] {
+							return walk(e.To, b, 0, f)
+						}
+						return false
+					}
+					// unknown: both, recording the fact
+					for _, br := range []struct {
+						e  Edge
+						nn bool
+					}{{nilE, false}, {nonE, true}} {
+						if ct != nil && ct.edges[br.e] {
+							continue
+						}
+						nf := facts{}
+						for v, q := range f {
+							nf[v] = q
+						}
+						nf[x] = br.nn
+						if walk(br.e.To, b, 0, nf) {
+							return true
+						}
+					}
+					return false
+				}
+			}
+			if !decided {
+				next = b.Succs
+			}
+		} else {
+			next = b.Succs
+		}
+		for _, sb := range next {
+			if ct != nil && ct.edges[Edge{b, sb}] {
+				continue
+			}
+			if walk(sb, b, 0, f) {
+				return true
+			}
+		}
+		return false
+	}
+	f0 := facts{}
+	for _, v := range nonNil {
+		for a := range Aliases(v) {
+			if _, isPhi := a.(*ssa.Phi); !isPhi {
+				f0[a] = true
+			}
+		}
+	}
+	return walk(b0, nil, idx, f0)
 }
